@@ -223,7 +223,7 @@ int main(int argc, char **argv) {
             if (world.rank == 0) {
                 std::cout << id << " " << op << " ";
                 for (int r = 0; r < world.size; ++r) { if (r) std::cout << " ; "; std::cout << all.substr(displ[r], lens[r]); }
-                std::cout << std::endl;
+                std::cout << " $" << std::endl;      // end-of-record mark: a line cut short by a dying launcher is detectable
             }
         }
     }
